@@ -432,7 +432,7 @@ class SymStr:
         return SymStr((Atom(len(bs), tuple(bs)),))
 
     @staticmethod
-    def fresh(name, cap, cons, minlen=0, exact_len=None, ascii_only=False, alphabet=None):
+    def fresh(name, cap, cons, minlen=0, exact_len=None, ascii_only=False, alphabet=None, stable_name=False):
         """new symbolic string; appends its well-formedness constraints to cons"""
         bs = [z3.BitVec('%s_%d' % (name, i), 8) for i in range(cap)]
         if exact_len is not None:
@@ -440,7 +440,7 @@ class SymStr:
         else:
             global _fresh_serial
             _fresh_serial += 1
-            lname = '%s_len#%d' % (name, _fresh_serial)
+            lname = ('%s_len' % name) if stable_name else '%s_len#%d' % (name, _fresh_serial)
             ln = z3.BitVec(lname, LW)
             VAR_BOUNDS[lname] = (minlen, cap)
             cons.append(z3.ULE(ln, bvval(cap, LW)))
